@@ -446,6 +446,109 @@ func c18OneResponse(c *Ctx, p *core.Prog, fn *ssa.Function, senders map[*ssa.Fun
 		}
 	}
 	checkIDGuard(reqCall.Block(), "HandleRequest|id-guard", reqCall.Pos())
+	// no silent drop: once the message has been decoded, a path that reaches the return without a send must
+	// have seen `id == nil` (it is a notification); a path that saw `id != nil` carries exactly one send.
+	idTest := func(iff *ssa.If) bool {
+		for _, bo := range condConjuncts(iff.Cond, 0) {
+			if (bo.Op == token.NEQ || bo.Op == token.EQL) && (core.IsNilConst(bo.X) || core.IsNilConst(bo.Y)) {
+				other := bo.X
+				if core.IsNilConst(other) {
+					other = bo.Y
+				}
+				if u, isLoad := other.(*ssa.UnOp); isLoad {
+					if fa, isFa := u.X.(*ssa.FieldAddr); isFa && core.FieldName(fa.X.Type(), fa.Field) == "ID" {
+						return true
+					}
+				}
+			}
+		}
+		return false
+	}
+	// start points: the success side of every test of a json.Unmarshal error
+	type start struct {
+		b   *ssa.BasicBlock
+		pos token.Pos
+	}
+	var starts []start
+	for _, b := range fn.Blocks {
+		iff, ok := b.Instrs[len(b.Instrs)-1].(*ssa.If)
+		if !ok {
+			continue
+		}
+		bo, ok := iff.Cond.(*ssa.BinOp)
+		if !ok || !(core.IsNilConst(bo.X) || core.IsNilConst(bo.Y)) {
+			continue
+		}
+		e := bo.X
+		if core.IsNilConst(e) {
+			e = bo.Y
+		}
+		call, ok := e.(*ssa.Call)
+		if !ok {
+			continue
+		}
+		if f := call.Call.StaticCallee(); f == nil || f.Name() != "Unmarshal" {
+			continue
+		}
+		succ := 0 // err == nil: true branch
+		if bo.Op == token.NEQ {
+			succ = 1
+		}
+		starts = append(starts, start{b.Succs[succ], call.Pos()})
+	}
+	if len(starts) == 0 {
+		r.Fatal("anchor not found: json.Unmarshal error test in handleMessage")
+	}
+	for i, st := range starts {
+		key := sprintf("decoded#%d|answered", i+1)
+		var badPath string
+		npaths := 0
+		var dfs func(b *ssa.BasicBlock, n int, sawNil, sawNonNil bool, trail []string)
+		dfs = func(b *ssa.BasicBlock, n int, sawNil, sawNonNil bool, trail []string) {
+			if badPath != "" || npaths > 4096 {
+				return
+			}
+			n += sends(b, 0)
+			if len(b.Succs) == 0 {
+				npaths++
+				if _, isRet := b.Instrs[len(b.Instrs)-1].(*ssa.Return); !isRet {
+					return // panic exit
+				}
+				switch {
+				case sawNonNil && n != 1:
+					badPath = sprintf("a path on which the id is known to be present sends %d responses (%s)", n, strings.Join(trail, " -> "))
+				case !sawNonNil && !sawNil && n == 0:
+					badPath = "a decoded message reaches the return without any response and without ever looking at its id (" + strings.Join(trail, " -> ") + "): a request taking this path is never answered"
+				}
+				return
+			}
+			if iff, ok := b.Instrs[len(b.Instrs)-1].(*ssa.If); ok && idTest(iff) {
+				// which successor means "id != nil"?
+				nonNilSucc := 0
+				for _, bo := range condConjuncts(iff.Cond, 0) {
+					if bo.Op == token.EQL && (core.IsNilConst(bo.X) || core.IsNilConst(bo.Y)) {
+						nonNilSucc = 1
+					}
+				}
+				for si, sb := range b.Succs {
+					t2 := append(append([]string{}, trail...), p.Pos(iff.Cond.Pos()))
+					// with a conjunction (err == nil && id != nil) the false side says nothing certain about the id,
+					// but then the message was either undecodable or a notification: treat as nil
+					dfs(sb, n, sawNil || si != nonNilSucc, sawNonNil || si == nonNilSucc, t2)
+				}
+				return
+			}
+			for _, sb := range b.Succs {
+				dfs(sb, n, sawNil, sawNonNil, trail)
+			}
+		}
+		dfs(st.b, 0, false, false, []string{p.Pos(st.pos)})
+		if badPath == "" {
+			r.OK("one-response", key, p.Pos(st.pos), sprintf("%d paths from the decoded message to the return: each either answers once or is on the id == nil side", npaths))
+		} else {
+			r.Violate("one-response", key, p.Pos(st.pos), badPath)
+		}
+	}
 	n := 0
 	for _, b := range fn.Blocks {
 		for _, in := range b.Instrs {
